@@ -2202,7 +2202,7 @@ func (r resolverQuery) matchTSConfigPaths(tsConfigJSON *TSConfigJSON, path strin
 			// case isn't handled by the TypeScript compiler, but we handle it
 			// because we want the output to always be deterministic and Go map
 			// iteration order is deliberately non-deterministic.
-			if strings.HasPrefix(path, prefix) && strings.HasSuffix(path, suffix) && (len(prefix) > longestMatchPrefixLength ||
+			if len(path) >= len(prefix)+len(suffix) && strings.HasPrefix(path, prefix) && strings.HasSuffix(path, suffix) && (len(prefix) > longestMatchPrefixLength ||
 				(len(prefix) == longestMatchPrefixLength && len(suffix) > longestMatchSuffixLength)) {
 				longestMatchPrefixLength = len(prefix)
 				longestMatchSuffixLength = len(suffix)
